@@ -364,7 +364,20 @@ func auPayload(r *Rand, wantGood bool, out *Out) []byte {
 		}
 	}
 	forged := auEntry{"__qi_auth_state", auValU32(3)}
-	switch r.Intn(14) {
+	switch r.Intn(16) {
+	case 14, 15:
+		// a pair the authenticator refuses, whose user and token written one after the other read like a pair it
+		// accepts (which another connection may just have presented)
+		o.Count("payload:same-letters-split-elsewhere")
+		pair := [][2]string{{"alic", "esecret"}, {"alicesecret", ""}, {"", "alicesecret"}, {"alices", "ecret"}, {"", "bob"}, {"b", "ob"}, {"anon", ""}, {"an", "on"}}[r.Intn(8)]
+		var es []auEntry
+		if pair[0] != "" || r.Bool() {
+			es = append(es, auEntry{"auth_user", auValStr(pair[0])})
+		}
+		if pair[1] != "" || r.Bool() {
+			es = append(es, auEntry{"auth_token", auValStr(pair[1])})
+		}
+		return auMap(shuffle(append(extras(), es...)))
 	case 0:
 		o.Count("payload:wrong-token")
 		return auMap(shuffle(append(extras(), auEntry{"auth_user", auValStr("alice")}, auEntry{"auth_token", auValStr("Secret")})))
@@ -578,6 +591,32 @@ func runC06(r *Rand, tier string, o *Out) {
 			case "auth 3":
 				authed[k] = true
 			}
+		}
+	}
+	// one connection presents a pair the authenticator accepts; then another connection presents a pair it
+	// refuses, made of the same letters split elsewhere, and addresses a service
+	good := [][2]string{{"alice", "secret"}, {"bob", ""}, {"", "anon"}}
+	bad := [][][2]string{{{"alic", "esecret"}, {"alicesecret", ""}, {"", "alicesecret"}}, {{"", "bob"}, {"b", "ob"}}, {{"anon", ""}, {"an", "on"}}}
+	pairMap := func(p [2]string) []byte {
+		var es []auEntry
+		if p[0] != "" {
+			es = append(es, auEntry{"auth_user", auValStr(p[0])})
+		}
+		if p[1] != "" {
+			es = append(es, auEntry{"auth_token", auValStr(p[1])})
+		}
+		return auMap(es)
+	}
+	for gi, g := range good {
+		for _, b := range bad[gi] {
+			o.Do("P", "au.reset dict", false)
+			o.Do("P", "au.connect", false)
+			o.Do("P", "au.connect", false)
+			o.Do("P", "au.frame 0 1 0 0 8 "+hx(pairMap(g)), true)
+			o.Do("P", "au.frame 1 1 0 0 8 "+hx(pairMap(b)), true)
+			o.Do("P", "au.frame 1 1 1 1 100 "+hx([]byte{1, 2}), true)
+			o.Do("P", "au.frame 0 1 1 1 100 "+hx([]byte{3}), true)
+			o.Count("scenario:same-letters-after-an-accepted-pair")
 		}
 	}
 	bursts := 30
